@@ -91,6 +91,8 @@ pub struct World {
     pub node: Option<Node>,
     pub op_index: usize,
     any_fault: bool,
+    /// set by `ChildKeyAsNextMessage`, consumed by the next `Sign`
+    pub next_message: Option<Vec<u8>>,
 }
 
 pub fn heights(params: &[(u32, u32)]) -> Vec<u32> {
@@ -130,6 +132,7 @@ impl World {
             node: None,
             op_index: 0,
             any_fault: false,
+            next_message: None,
         }
     }
 
@@ -542,7 +545,7 @@ impl World {
         self.ensure_loaded(pi, api);
         let hash = self.keys[ki].cfg.hash;
         let n = hash.n();
-        let message = content(msg.len, msg.cseed);
+        let message = self.next_message.take().unwrap_or_else(|| content(msg.len, msg.cseed));
         if msg.len >= 4096 {
             self.rep.stats.probe("message>=4KiB");
         }
@@ -1524,6 +1527,19 @@ pub fn run_plan(plan: &Plan, keep_events: bool) -> RunReport {
             Op::ForeignKey { key, counter } => {
                 if *key < w.keys.len() {
                     w.op_foreign_key(*key, *counter)
+                }
+            }
+            Op::ChildKeyAsNextMessage { child, lms_type, ots_type } => {
+                if *child < w.keys.len() && w.keys[*child].pubk.len() > 12 {
+                    let mut b = w.keys[*child].pubk[4..].to_vec();
+                    if let Some(t) = lms_type {
+                        b[0..4].copy_from_slice(&t.to_be_bytes());
+                    }
+                    if let Some(t) = ots_type {
+                        b[4..8].copy_from_slice(&t.to_be_bytes());
+                    }
+                    w.event(format!("next message = public key of k{} (lms type {:?}, ots type {:?})", child, lms_type, ots_type));
+                    w.next_message = Some(b);
                 }
             }
             Op::Load { proc, how } => {
